@@ -189,6 +189,10 @@ impl SimCtx {
     pub fn progress_count(&self) -> u64 {
         self.progress.load(Ordering::Relaxed)
     }
+    /// Starts a new sub-case: the run-away budget is per sub-case.
+    pub fn reset_polls(&self) {
+        self.polls.store(0, Ordering::Relaxed);
+    }
     /// Counts a poll of a stub; panics with the spin sentinel when the run's
     /// poll budget is exceeded (a busy loop inside the code under test).
     pub fn tick(&self) {
